@@ -352,6 +352,9 @@ fn alphabet(w: i32, h: i32, thorough: bool) -> Vec<Act> {
     }
     v.push(Act::DrawIter(vec![((1, 0), 0x1234_5678), ((w, h), 7), ((0, h - 1), 0xFEDC_BA95)]));
     v.push(Act::FillSolid((w - 2, -1, 3, 3), 0x5555_5555));
+    // zero-sized areas that start inside the buffer and extend far beyond it (nothing to write)
+    v.push(Act::FillSolid((w / 2, 0, 0, h as u32 + 1000), 0x1357_9BDF));
+    v.push(Act::FillSolid((0, h - 1, w as u32 + 1000, 0), 0x1357_9BDF));
     v.push(Act::Clear(0xAAAA_AAAB));
     v.push(Act::DrawRect((0, 0, w as u32, h as u32), 0x7777_7777));
     v.push(Act::Drawable(2, 0x3C3C_3C3D));
